@@ -11,29 +11,29 @@ Ltac2 Set Whnf.is_blocked as old := fun c =>
                                        (Ltac2.Constr.equal c '@Angle_to_positive)).
 
 (* the formulas of the two routines (radians in, radians out) *)
-Definition ecl_lon (a d e : R) : R := atan2 (sin a * cos e + tan d * sin e) (cos a).
-Definition ecl_lat (a d e : R) : R := asin (sin d * cos e - cos d * sin e * sin a).
-Definition equ_ra (l b e : R) : R := atan2 (sin l * cos e - tan b * sin e) (cos l).
-Definition equ_dec (l b e : R) : R := asin (sin b * cos e + cos b * sin e * sin l).
+Definition ecl_y (a d e : R) : R := sin a * cos e + tan d * sin e.
+Definition ecl_lon (a d e : R) : R := atan2 (ecl_y a d e) (cos a).
+Definition ecl_lat (a d e : R) : R :=
+  atan2 (sin d * cos e - cos d * sin e * sin a)
+        (Rabs (cos d) * sqrt (cos a * cos a + ecl_y a d e * ecl_y a d e)).
+Definition equ_y (l b e : R) : R := sin l * cos e - tan b * sin e.
+Definition equ_ra (l b e : R) : R := atan2 (equ_y l b e) (cos l).
+Definition equ_dec (l b e : R) : R :=
+  atan2 (sin b * cos e + cos b * sin e * sin l)
+        (Rabs (cos b) * sqrt (cos l * cos l + equ_y l b e * equ_y l b e)).
 
 (* exact outputs as real expressions *)
 Lemma eq2ecl_closed (al de ep : R) :
   f_equatorial2ecliptical Rops (ang al) (ang de) (ang ep) =
   VTuple [ang (topos (r2d (ecl_lon (d2r al) (d2r de) (d2r ep))));
           ang (r2d (ecl_lat (d2r al) (d2r de) (d2r ep)))].
-Proof.
-  pose proof (zr_minus_sin (de * (PI / 180)) (ep * (PI / 180)) (al * (PI / 180))) as Hz.
-  c05run. reflexivity.
-Qed.
+Proof. crun. reflexivity. Qed.
 
 Lemma ecl2eq_closed (lo la ep : R) :
   f_ecliptical2equatorial Rops (ang lo) (ang la) (ang ep) =
   VTuple [ang (topos (r2d (equ_ra (d2r lo) (d2r la) (d2r ep))));
           ang (r2d (equ_dec (d2r lo) (d2r la) (d2r ep)))].
-Proof.
-  pose proof (zr_plus_sin (la * (PI / 180)) (ep * (PI / 180)) (lo * (PI / 180))) as Hz.
-  c05run. reflexivity.
-Qed.
+Proof. crun. reflexivity. Qed.
 
 (* ---- geometry: the formulas are the rotation about the x axis ---- *)
 Lemma ecl_formula_rot a d e : 0 < cos d ->
@@ -41,13 +41,13 @@ Lemma ecl_formula_rot a d e : 0 < cos d ->
 Proof.
   intros Hd.
   assert (E : Rx (- e) (uvec a d) =
-              (cos d * cos a, cos d * (sin a * cos e + tan d * sin e),
+              (cos d * cos a, cos d * ecl_y a d e,
                sin d * cos e - cos d * sin e * sin a)).
-  { unfold Rx, uvec. rewrite cos_neg, sin_neg. apply vec_eq; unfold tan; field; lra. }
+  { unfold Rx, uvec, ecl_y. rewrite cos_neg, sin_neg. apply vec_eq; unfold tan; field; lra. }
   assert (N : dot (Rx (- e) (uvec a d)) (Rx (- e) (uvec a d)) = 1)
     by (rewrite dot_Rx; apply uvec_norm).
-  rewrite E in *. unfold dot in N. unfold ecl_lon, ecl_lat.
-  apply lonlat_scaled with (k := cos d); [assumption | reflexivity | reflexivity | exact N].
+  rewrite E in *. unfold dot in N. unfold ecl_lon, ecl_lat. rewrite (Rabs_right (cos d)) by lra.
+  apply lonlat_scaled2; [assumption | reflexivity | reflexivity | exact N].
 Qed.
 
 Lemma equ_formula_rot l b e : 0 < cos b ->
@@ -55,13 +55,13 @@ Lemma equ_formula_rot l b e : 0 < cos b ->
 Proof.
   intros Hd.
   assert (E : Rx e (uvec l b) =
-              (cos b * cos l, cos b * (sin l * cos e - tan b * sin e),
+              (cos b * cos l, cos b * equ_y l b e,
                sin b * cos e + cos b * sin e * sin l)).
-  { unfold Rx, uvec. apply vec_eq; unfold tan; field; lra. }
+  { unfold Rx, uvec, equ_y. apply vec_eq; unfold tan; field; lra. }
   assert (N : dot (Rx e (uvec l b)) (Rx e (uvec l b)) = 1)
     by (rewrite dot_Rx; apply uvec_norm).
-  rewrite E in *. unfold dot in N. unfold equ_ra, equ_dec.
-  apply lonlat_scaled with (k := cos b); [assumption | reflexivity | reflexivity | exact N].
+  rewrite E in *. unfold dot in N. unfold equ_ra, equ_dec. rewrite (Rabs_right (cos b)) by lra.
+  apply lonlat_scaled2; [assumption | reflexivity | reflexivity | exact N].
 Qed.
 
 (* equatorial2ecliptical returns the direction rotated by -eps about the x axis, longitude
@@ -74,7 +74,7 @@ Proof.
   intros Hde. eexists. eexists. split; [apply eq2ecl_closed |]. split; [| split].
   - rewrite uvec_topos_deg, d2r_r2d. apply ecl_formula_rot. now apply cos_d2r_pos.
   - apply topos_r2d_atan2_range.
-  - apply asin_range_deg.
+  - apply r2d_atan2_nonneg_range, abs_sqrt_nonneg.
 Qed.
 
 Theorem ecl2eq_rotation lo la ep : -90 < la < 90 ->
@@ -85,7 +85,7 @@ Proof.
   intros Hla. eexists. eexists. split; [apply ecl2eq_closed |]. split; [| split].
   - rewrite uvec_topos_deg, d2r_r2d. apply equ_formula_rot. now apply cos_d2r_pos.
   - apply topos_r2d_atan2_range.
-  - apply asin_range_deg.
+  - apply r2d_atan2_nonneg_range, abs_sqrt_nonneg.
 Qed.
 
 (* mutually inverse, as angles *)
